@@ -64,7 +64,8 @@ def items(tier, seed):
     for gen in gens:
         for it in gen:
             i += 1
-            if i % step == seed % step:
+            # the offset moves with the block of 16 kernel pairs, so that every seed sees every kernel pair (on different transitions)
+            if (i + (i - 1) // 16) % step == seed % step:
                 yield (it, i % 4, i // step)
 
 
